@@ -248,6 +248,192 @@ def moments(S, d, rounds, constant_model):
         S.prove(sym_and(S.eq(E[0], k), S.eq(V[0], 0)), 'moments:constant-model')
 
 
+# ---------------------------------------------------------------------------------------------------
+class _CpDist:
+    """Lifted-mode stand-in for a chaospy distribution: the closed forms of pdf / cdf / inverse (chaospy itself is compiled numpy code)."""
+
+    def __init__(self, kind, params, pdf, cdf, inv):
+        self.kind, self.params, self.pdf, self.cdf, self.inv = kind, params, pdf, cdf, inv
+
+
+def _tri_cdf(lo, mid, up):
+    def cdf(x):
+        left = (x - lo) * (x - lo) / ((up - lo) * (mid - lo))
+        right = 1 - (up - x) * (up - x) / ((up - lo) * (up - mid))
+        return core.ite(x <= mid, left, right) if is_sym(x) or is_sym(mid) else (left if x <= mid else right)
+    return cdf
+
+
+class _CpFacade(types.ModuleType):
+    """`cp` as seen by GridOperation in lifted runs.  Normal/Laplace objects are only stored by _prepare_distributions (the library takes their
+    pdf/cdf/ppf from scipy.stats, see _SpsFacade); J(...) is stored as well."""
+
+    def __init__(self, S):
+        super().__init__('cp_facade')
+        self.S = S
+
+    def Uniform(self, lower=0, upper=1):
+        return _CpDist('Uniform', (lower, upper), lambda x: 1 / (upper - lower), lambda x: (x - lower) / (upper - lower), lambda q: lower + q * (upper - lower))
+
+    def Triangle(self, lower, midpoint, upper):
+        inv = self.S.func('triangle_inv', 4)
+        return _CpDist('Triangle', (lower, midpoint, upper), None, _tri_cdf(lower, midpoint, upper), lambda q: inv([q, lower, midpoint, upper])[0])
+
+    def Normal(self, mu=0, sigma=1):
+        return _CpDist('Normal', (mu, sigma), None, None, None)
+
+    def Laplace(self, mu=0, sigma=1):  # signature of the installed chaospy (4.3): the second parameter is called sigma
+        return _CpDist('Laplace', (mu, sigma), None, None, None)
+
+    def J(self, *ds):
+        return tuple(ds)
+
+
+class _SpsFamily:
+    def __init__(self, S, name):
+        self._pdf, self._cdf, self._ppf = S.func(name + '_pdf', 3), S.func(name + '_cdf', 3), S.func(name + '_ppf', 3)
+
+    def pdf(self, x, loc=0, scale=1):
+        return self._pdf([x, loc, scale])[0]
+
+    def cdf(self, x, loc=0, scale=1):
+        return self._cdf([x, loc, scale])[0]
+
+    def ppf(self, x, loc=0, scale=1):
+        return self._ppf([x, loc, scale])[0]
+
+
+class _SpsFacade(types.ModuleType):
+    """scipy.stats as seen by GridOperation in lifted runs: norm / laplace pdf, cdf, ppf are uninterpreted functions of (x, loc, scale) - only
+    WHICH parameters reach them matters here."""
+
+    def __init__(self, S):
+        super().__init__('sps_facade')
+        self.norm, self.laplace = _SpsFamily(S, 'norm'), _SpsFamily(S, 'laplace')
+
+
+PREPARE_PATTERNS = {
+    'uniform': lambda d: [('Uniform',)] * d,
+    'uniform-str': lambda d: 'Uniform',
+    'triangle-same-midpoint-info': lambda d: [('Triangle', 0.5)] * d,
+    'triangle': lambda d: [('Triangle', 0.25 + 0.25 * k) for k in range(d)],
+    'normal': lambda d: [('Normal', float(k), 1.0 / (k + 1)) for k in range(d)],
+    'normal-same': lambda d: [('Normal', 0.5, 2.0)] * d,
+    'normal-same-mu': lambda d: [('Normal', 1.0, 1.0 + k) for k in range(d)],
+    'laplace': lambda d: [('Laplace', float(k), 1.0 + k) for k in range(d)],
+    'mixed': lambda d: ([('Uniform',), ('Normal', 0.0, 1.0), ('Triangle', 0.5), ('Uniform',), ('Normal', 0.0, 2.0)] * d)[:d],
+}
+
+
+def _prepare(S, d, pattern):
+    """The distribution used for dimension k is the one the user specified for dimension k, with the bounds a[k], b[k] of that dimension
+    (UncertaintyQuantification.__init__ / _prepare_distributions), and the weighted grid of the uniform case is the unweighted one over the length."""
+    from sparseSpACE import GridOperation as GO
+    from sparseSpACE import Function as FM
+    G = _G()
+    distris = PREPARE_PATTERNS[pattern](d)
+    bounded = pattern.startswith('uniform') or pattern.startswith('triangle') or pattern == 'mixed'
+    a, b, pool = [], [], []
+    for k in range(d):
+        if bounded:
+            # The library keys a dictionary with the bounds, which the engine hashes by normal form (job hash_mode): every bound is either the
+            # very same term as an earlier bound (solver's choice) or a fresh value assumed different from all earlier ones, so equal keys are
+            # syntactically equal and different keys provably different.  All coincidence patterns between the bounds of the dimensions
+            # (same box, same lower bound only, a_k = b_j, ...) are enumerated by the choices.
+            def pick(tag):
+                j = S.choice('pick_%s%d' % (tag, k), len(pool) + 1)
+                if j < len(pool):
+                    return pool[j]
+                v = S.real('%s%d' % (tag, k))
+                S.assume(v >= -8)
+                S.assume(v <= 8)
+                for o in pool:
+                    S.assume(v != o)
+                pool.append(v)
+                return v
+            if k >= 2:
+                # third and later dimensions: the box of an earlier dimension or two fresh bounds (keeps the number of patterns small)
+                j = S.choice('box%d' % k, k + 1)
+                if j < k:
+                    a.append(a[j])
+                    b.append(b[j])
+                    continue
+                S.assume(S.choice('pick_a%d' % k, len(pool) + 1) == len(pool))
+                S.assume(S.choice('pick_b%d' % k, len(pool) + 2) == len(pool) + 1)
+            ak = pick('a')
+            bk = pick('b')
+            S.assume(bk - ak >= 1)
+            a.append(ak)
+            b.append(bk)
+        else:
+            a.append(-float(k + 1))
+            b.append(float(2 * k + 1))
+    op = GO.UncertaintyQuantification(FM.ConstantValue(1.0), distris if isinstance(distris, str) else list(distris), a, b, dim=d)
+    infos = [distris] * d if isinstance(distris, str) else distris
+    infos = [(i,) if isinstance(i, str) else i for i in infos]
+    S.prove(len(op.distributions) == d, 'prepare:one-distribution-per-dimension')
+    x = S.real('x')
+    q = S.real('q')
+    S.assume(q > 0)
+    S.assume(q < 1)
+    for k in range(d):
+        info = infos[k]
+        dist = op.distributions[k]
+        if info[0] in ('Uniform', 'Triangle'):
+            S.assume(x >= -16)
+            S.assume(x <= 16)
+            t = a[k] + (x + 16) / 32 * (b[k] - a[k])  # a point of [a_k, b_k]
+            if info[0] == 'Uniform':
+                want = (t - a[k]) / (b[k] - a[k])
+                S.prove(S.eq(dist.cdf(t), want, 1.0, 1e-12), 'prepare:dimension-k-uses-Uniform(a_k,b_k)')
+                S.prove(S.eq(dist.ppf(q), a[k] + q * (b[k] - a[k]), 1.0, 1e-12), 'prepare:dimension-k-ppf-is-that-of-Uniform(a_k,b_k)')
+            else:
+                mid = info[1]
+                if S.lifted:
+                    S.assume(a[k] < mid - 0.125)
+                    S.assume(b[k] > mid + 0.125)
+                elif not (a[k] < mid - 0.125 and b[k] > mid + 0.125):
+                    continue
+                want = _tri_cdf(a[k], mid, b[k])(t)
+                S.prove(S.eq(dist.cdf(t), want, 1.0, 1e-9), 'prepare:dimension-k-uses-Triangle(a_k,mid_k,b_k)')
+        else:
+            fam = 'norm' if info[0] == 'Normal' else 'laplace'
+            import scipy.stats
+            real = getattr(scipy.stats, fam)
+            if S.lifted:
+                want_c, want_p = S.func(fam + '_cdf', 3)([x, info[1], info[2]])[0], S.func(fam + '_ppf', 3)([q, info[1], info[2]])[0]
+            else:
+                want_c, want_p = real.cdf(x, loc=info[1], scale=info[2]), real.ppf(q, loc=info[1], scale=info[2])
+            S.prove(S.eq(dist.cdf(x), want_c, 1.0, 1e-12), 'prepare:dimension-k-uses-the-parameters-given-for-dimension-k')
+            S.prove(S.eq(dist.ppf(q), want_p, 1.0, 1e-9), 'prepare:dimension-k-ppf-uses-the-parameters-given-for-dimension-k')
+    if pattern.startswith('uniform') and d == 2:
+        # the statement itself: weighted trapezoidal weights of a uniform distribution = unweighted weights / interval length, in every dimension
+        for dist in op.distributions:
+            if S.lifted:
+                dist.cached_moments = [_NoCache(), _NoCache()]
+        grid = G.GlobalTrapezoidalGridWeighted(a, b, op, boundary=True)
+        coords = [[a[k], a[k] + (b[k] - a[k]) / 4, a[k] + (b[k] - a[k]) / 2, b[k]] for k in range(d)]
+        grid.set_grid([list(c) for c in coords], [[0, 2, 1, 0]] * d)
+        for k in range(d):
+            w = list(grid.weights[k])
+            ref = list(G.GlobalTrapezoidalGrid.compute_weights(list(coords[k]), a[k], b[k], False))
+            S.prove(sym_and(*[S.eq(w[i], ref[i] / (b[k] - a[k]), 1.0, 1e-12) for i in range(4)]), 'prepare:uniform-weights-are-trapezoidal-weights-over-length-in-every-dimension')
+
+
+def prepare(S, d, pattern):
+    from sparseSpACE import GridOperation as GO
+    import chaospy, scipy.stats
+    if S.lifted:
+        # the closures of _prepare_distributions look `sps` up when they are called: the stand-ins stay in place for the whole run
+        GO.cp, GO.sps = _CpFacade(S), _SpsFacade(S)
+    try:
+        return _prepare(S, d, pattern)
+    finally:
+        GO.cp, GO.sps = chaospy, scipy.stats
+
+
+
+
 def _uniform_pdf_shims():
     """Uniform chaospy distribution members are compiled; in lifted mode the UQDistribution of a Uniform is given by its formulas."""
     return [('sparseSpACE.GridOperation', 'integrate', _IntegrateFacade())]
@@ -309,6 +495,9 @@ def jobs(tier):
                           extra_shims=extra, validate=(5 if q else 2)))
     js.append(Job('midpoint[exact-inverse]', midpoint, {'exact_inverse': True}))
     js.append(Job('midpoint[arbitrary-ppf]', midpoint, {'exact_inverse': False}))
+    for d in ((2, 3) if q else (2, 3, 4)):
+        for pat in PREPARE_PATTERNS:
+            js.append(Job('prepare[d=%d,%s]' % (d, pat), prepare, {'d': d, 'pattern': pat}, extra_shims=extra, validate=1, timeout_ms=30000, hash_mode='normal_form'))
     for d in (1, 2):
         for rounds in ((0, 1) if q else (0, 1, 2)):
             for const in (False, True):
